@@ -141,10 +141,18 @@ class SimNcp:
         return out
 
     def _send(self, seq, cid, rx, fields, fc, delay=None):
-        data = refezsp.header(self.table_version, seq, cid, fc) + self.build(rx, fields)
+        d = self.delay if delay is None else delay
         if fc == refezsp.RESPONSE:
-            self.last_resp_seq = seq
-        self.loop.call_later(self.delay if delay is None else delay, self._deliver, data)
+            data = refezsp.header(self.table_version, seq, cid, fc) + self.build(rx, fields)
+            self.loop.call_later(d, self._deliver_response, seq, data)
+        else:
+            # a callback carries the sequence number of the last response SENT, as of the moment it leaves
+            payload = self.build(rx, fields)
+            self.loop.call_later(d, lambda: self._deliver(refezsp.header(self.table_version, self.last_resp_seq, cid, fc) + payload))
+
+    def _deliver_response(self, seq, data):
+        self.last_resp_seq = seq
+        self._deliver(data)
 
     def _deliver(self, data):
         if self.ezsp is not None and not self.closed:
